@@ -273,7 +273,7 @@ func (fr *Frame) nilCheckPlace(st *State, p *Place, pos token.Pos, what string) 
 		return
 	}
 	r := p.ref
-	if strings.HasPrefix(r, "a_") || strings.HasPrefix(r, "ph_") || strings.HasPrefix(r, "glob_") || strings.HasPrefix(r, "mk!") {
+	if strings.HasPrefix(r, "a_") || strings.HasPrefix(r, "ph_") || strings.HasPrefix(r, "(- ") || strings.HasPrefix(r, "mk!") {
 		return
 	}
 	fr.safetyOb(st, "nilderef", what, pos, not(eq(r, "0")))
